@@ -47,12 +47,33 @@ class Lock:
 
 def snapshot_src(sub='replay-src'):
     """rsync /repo's working tree (without target/.git) to a scratch dir; returns path.  The MIR dump and the
-    native replay use different copies (they run under different locks)."""
+    native replay use different copies (they run under different locks).
+    Content-based (--checksum) and without preserving mtimes: a file whose content changed gets the time of the copy,
+    so cargo's mtime-based fingerprints never take a stale build of a *different* content for fresh (restoring an
+    older file with its old mtime would otherwise do exactly that)."""
     dst = os.path.join(SCRATCH, sub)
     os.makedirs(dst, exist_ok=True)
-    subprocess.run(['rsync', '-a', '--delete', '--exclude', 'target', '--exclude', '.git',
+    subprocess.run(['rsync', '-rlpgoD', '--checksum', '--delete', '--exclude', 'target', '--exclude', '.git',
                     REPO + '/', dst + '/'], check=True)
+    force_rebuild_if_changed(dst)
     return dst
+
+
+def force_rebuild_if_changed(dst):
+    """belt and braces for cargo's mtime fingerprints: when the content of the tree differs from the one this scratch
+    copy held last time, every source file gets a fresh mtime"""
+    h = tree_hash()
+    stamp = dst.rstrip('/') + '.treehash'
+    old = open(stamp).read().strip() if os.path.exists(stamp) else ''
+    if old != h:
+        for root, _, files in os.walk(dst):
+            if os.sep + 'target' in root:
+                continue
+            for f in files:
+                if f.endswith(('.rs', '.toml', '.proto', '.lock')):
+                    os.utime(os.path.join(root, f))
+        with open(stamp, 'w') as f:
+            f.write(h)
 
 
 def mir_dump():
